@@ -294,9 +294,44 @@ def run_real(case):
                     "want_obs": [V.observe(r) for r in acreated[i]], "got_obs": [V.observe(r) for r in got]})
         finally:
             shutil.rmtree(d0, ignore_errors=True)
-        # ---- JSON writers (nested records / grouped are not JSON-serialisable: only flat records go there)
-        flat = [(w, rec) for w, rec in recs if type(rec).__name__ != "GroupedRecord"
-                and not any(t.startswith("record") for t, _ in rec._desc.get_field_tuples())]
+        # ---- JSON writers (nested records are not JSON-serialisable; a GROUP is: it goes out as one flat record of the
+        # group's name whose fields are those of its members, each declared name once)
+        def _is_group(x):
+            return type(x).__name__ == "GroupedRecord"
+
+        def _flat_spec(spec):
+            fields, seen = [], set()
+            for m_ in spec[2]:
+                for t_, n_ in m_[1][1]:
+                    if n_ not in seen:
+                        seen.add(n_)
+                        fields.append([t_, n_])
+            return [spec[1], fields]
+
+        def _jsig(r_):
+            return _flat_spec(spec_of[id(r_)]) if _is_group(r_) else _spec_sig(spec_of[id(r_)])
+
+        def _jobs(r_):
+            if not _is_group(r_):
+                return V.observe(r_)
+            vals, seen = [], set()
+            for m_ in r_.records:
+                o_ = V.observe(m_)
+                for (t_, n_), v_ in zip(o_[2], o_[3]):
+                    if n_ not in seen:
+                        seen.add(n_)
+                        vals.append(v_)
+            return ["flat", vals]
+
+        def _jgot(g_, r_):
+            if not _is_group(r_):
+                return V.observe(g_)
+            o_ = V.observe(g_)
+            return ["flat", list(o_[3][:len(_flat_spec(spec_of[id(r_)])[1])])] if o_[0] == "rec" else o_
+
+        flat = [(w, rec) for w, rec in recs
+                if (_is_group(rec) and not any(t.startswith("record") for m_ in rec.records for t, _ in m_._desc.get_field_tuples()))
+                or (not _is_group(rec) and not any(t.startswith("record") for t, _ in rec._desc.get_field_tuples()))]
         import os
         import shutil
         import tempfile
@@ -324,11 +359,11 @@ def run_real(case):
                     got, err = [], type(e).__name__ + ": " + str(e)[:80]
                 lines = ["D" if '"_type": "recorddescriptor"' in ln else "R" for ln in text.splitlines()]
                 out["json"].append({"error": err, "kinds": lines,
-                                    "spec_sig": [_spec_sig(spec_of[id(r)]) for r in jcreated[i]],
-                                    "want_sig": [_desc_sig(r) for r in jcreated[i]],
+                                    "spec_sig": [_jsig(r) for r in jcreated[i]],
+                                    "want_sig": [_jsig(r) if _is_group(r) else _desc_sig(r) for r in jcreated[i]],
                                     "got_sig": [_desc_sig(r) for r in got],
-                                    "want_obs": [V.observe(r) for r in jcreated[i]],
-                                    "got_obs": [V.observe(r) for r in got]})
+                                    "want_obs": [_jobs(r) for r in jcreated[i]],
+                                    "got_obs": [_jgot(g, r) for g, r in zip(got, jcreated[i])] + [V.observe(g) for g in got[len(jcreated[i]):]]})
         finally:
             shutil.rmtree(d, ignore_errors=True)
         return out
